@@ -178,6 +178,16 @@ def handleOwn (args : List String) : String :=
       let b2s := fun (b : Bool) => if b then "1" else "0"
       let epsOf := fun (dflt : Rat) => if eps = "default" then some dflt else parseRat? eps
       match op with
+      | "hguard" =>
+          -- input guard of is_ppt (`ppt`) / check_reduction_witness (`red`) / get_negativity (`neg`): `eps` names the function
+          let herm := fun (r c : Nat) => decide (ρ r c = ⟨(ρ c r).re, -(ρ c r).im⟩)
+          let g? : Option Bool := match eps with
+            | "ppt" => some Thresholds.isPptHermGuard
+            | "red" => some Thresholds.reductionHermGuard
+            | "neg" => if dim.length = 2 then some Thresholds.negativityHermGuard else none
+            | _ => none
+          let some g := g? | return "bad-op"
+          return if hermGuardRejects g N herm then "error" else "ok"
       | "vppt" =>
           let some ε := epsOf Thresholds.isPptEpsDefault | return "bad-op"
           let l := (List.range dim.length).map fun i => diagMinQ? N (pptMatrix dim i ρ)
